@@ -179,6 +179,64 @@ class Machine:
         if not ok:
             self.V("definition", f"{name}: value differs from the definition (rel {rel:.2e}, shapes {np.shape(got)} vs {np.shape(ref)})", site=site)
 
+    def refilled_operands(self, name, call, operands, plain):
+        """The caller re-uses its operand arrays: the same array objects get new contents in place (here:
+        the batch items in reverse order) and the routine is called again - every routine acts item by
+        item, so the result is the earlier one with its items in reverse order. A routine that remembers
+        something about an operand *object* (not its content) returns the old values."""
+        arrs = [a for a in operands if isinstance(a, np.ndarray)]
+        if len(arrs) != len(operands) or not arrs:
+            return
+        if not all(a.flags.writeable and a.ndim >= 1 and a.dtype.kind == "f" for a in arrs):
+            return
+        uniq = []
+        for a in arrs:
+            if any(a is u for u in uniq):
+                continue
+            if any(np.shares_memory(a, u) for u in uniq):
+                return  # overlapping views: an in-place refill of one changes the other
+            uniq.append(a)
+        full = tuple(self.batch)
+        nb = len(full)
+        n = full[-1]
+        # operands and result carry the batch axes of this machine last (size-one axes broadcast)
+        if n < 2 or any(a.ndim < nb or any(s_ not in (1, f_) for s_, f_ in zip(a.shape[-nb:], full)) for a in uniq):
+            return
+        if not any(a.shape[-1] == n for a in uniq):
+            return
+        first = plain[0] if isinstance(plain, (list, tuple)) else plain
+        if not isinstance(first, np.ndarray) or first.ndim < nb or tuple(first.shape[-nb:]) != full:
+            return
+
+        def flipped(x):
+            if isinstance(x, (list, tuple)):
+                return [flipped(v) for v in x]
+            if isinstance(x, np.ndarray) and x.ndim >= 1 and x.shape[-1] == n:
+                return x[..., ::-1]
+            return None
+
+        want = flipped(plain)
+        if want is None or (isinstance(want, list) and any(v is None for v in want)):
+            return
+        want = [np.array(v, copy=True) for v in want] if isinstance(want, list) else np.array(want, copy=True)
+        for a in uniq:
+            if a.shape[-1] == n:
+                a[...] = a[..., ::-1].copy()
+        try:
+            got = call(out=None, parallel=False)
+            # (a result may be a view of an operand: taken before the operands are restored)
+            got = [np.array(v, copy=True) for v in got] if isinstance(got, (list, tuple)) else np.array(got, copy=True)
+        finally:
+            for a in uniq:
+                if a.shape[-1] == n:
+                    a[...] = a[..., ::-1].copy()
+        pairs = list(zip(got, want)) if isinstance(want, list) else [(got, want)]
+        for g_, w_ in pairs:
+            ok, rel = close_exact_twin(np.asarray(g_), w_, rtol=1e-12, atol=1e-13 * (float(np.abs(w_).max()) if np.size(w_) else 0.0) + 1e-300)
+            if not ok:
+                self.V("call-history", f"{name}: called again after the caller refilled the same operand arrays in place (batch items reversed), the result is not the earlier one with its items reversed (rel {rel:.2e})", site=f"{name}.operand-refilled")
+        self.log.count("variant:operands-refilled-in-place")
+
     def unchanged(self, name, operands, digests, variant):
         for k, (a, d) in enumerate(zip(operands, digests)):
             if adigest(a) != d:
@@ -240,6 +298,7 @@ class Machine:
                         self.log.count("probe:out-buffer-not-filled")
                 self.remember(got if isinstance(got, np.ndarray) else None)
             self.remember(plain if isinstance(plain, np.ndarray) else None)
+            self.refilled_operands(name, call, operands, plain)
             self.sigs.append(f"{name}:{op.get('out')}:{int(par)}:{op.get('mode')}")
             if op["seed"] % 3 == 0 and isinstance(plain, np.ndarray) and plain.flags.writeable and plain.dtype == float and not any(np.shares_memory(plain, a) for a in operands):
                 # a returned array is the caller's: overwriting it must not change what the next
@@ -502,6 +561,8 @@ class Machine:
                 dg = adigest(Cc)
                 got = api("math.strain", fm.strain, op["seed"], None, C=Cc, tensor=op["tensor"], asvoigt=op["asvoigt"], **kw)
                 self.unchanged(name, [Cc], [dg], "plain")
+                if Cc.flags.writeable and isinstance(got, np.ndarray):
+                    self.refilled_operands(name, lambda out, parallel: fm.strain(None, C=Cc, tensor=op["tensor"], asvoigt=op["asvoigt"], **kw), [Cc], np.array(got, copy=True))
             else:
                 import felupe as fem
 
